@@ -10,8 +10,9 @@ from props.c07_rig import SERS, SEQ_OUT, TB_TOKEN, Unser, cps, enc, enc_exc, qua
 
 ID = "C07"
 LEAN_MODEL_TARGETS = ["drv_c07"]
-LEAN_PROOF_TARGETS = ["PyroProps.C07"]
-AUDIT_FILES = ["PyroModel/Exceptions.lean", "PyroModel/Gen/C07.lean", "PyroProofs/Exceptions.lean", "PyroProps/C07.lean"]
+LEAN_PROOF_TARGETS = ["PyroProps.C07", "PyroProps.C07Src"]
+AUDIT_FILES = ["PyroModel/Exceptions.lean", "PyroModel/Gen/C07.lean", "PyroProofs/Exceptions.lean", "PyroProps/C07.lean",
+               "PyroModel/ExcSrc.lean", "PyroModel/Gen/C07Src.lean", "PyroProps/C07Src.lean"]
 THEOREMS = ["Pyro.C07.C07_roundtrip_partial", "Pyro.C07.C07_roundtrip_batch_partial", "Pyro.C07.C07_roundtrip_whitelisted",
             "Pyro.C07.C07_fallback", "Pyro.C07.C07_fallback_batch", "Pyro.C07.C07_never_silent", "Pyro.C07.C07_no_hang",
             "Pyro.C07.C07_usable_after", "Pyro.C07.C07_usable_after_roundtrip", "Pyro.C07.C07_usable_after_fallback",
@@ -24,7 +25,12 @@ THEOREMS = ["Pyro.C07.C07_roundtrip_partial", "Pyro.C07.C07_roundtrip_batch_part
             "Pyro.C07.C07_gen_batch", "Pyro.C07.C07_gen_batch_fallback", "Pyro.C07.C07_gen_client", "Pyro.C07.C07_gen_retry",
             "Pyro.C07.C07_gen_retry_classes", "Pyro.C07.C07_gen_dict", "Pyro.C07.C07_gen_dispatch",
             "Pyro.C07.C07_retry_never_none",
-            "Pyro.C07.C07_retry_forwarded_once", "Pyro.C07.C07_roundtrip_retry", "Pyro.C07.C07_retry_bound_matters"]
+            "Pyro.C07.C07_retry_forwarded_once", "Pyro.C07.C07_roundtrip_retry", "Pyro.C07.C07_retry_bound_matters",
+            # the source's own functions, transcribed on every run (c07_tr.py -> Gen/C07Src.lean)
+            "Pyro.C07.C07_make_exception_translated", "Pyro.C07.C07_class_to_dict_translated",
+            "Pyro.C07.C07_class_to_dict_daemon_attr", "Pyro.C07.C07_class_to_dict_registered",
+            "Pyro.C07.C07_wrapper_to_dict_translated", "Pyro.C07.C07_raiseIt_translated", "Pyro.C07.C07_source_raiseIt_batch",
+            "Pyro.C07.C07_source_roundtrip_content", "Pyro.C07.C07_source_make_exception_only_exc"]
 SUITES = ["single", "batch", "decode"]
 RULE = ("ALL exception classes of vars(builtins) and all PyroError subclasses of vars(Pyro5.errors) (enumerated, 77 on this "
         "interpreter) x argument tuples the class's constructor accepts with e.args == args (class-specific shapes for the "
@@ -49,7 +55,9 @@ ASSUMPTIONS = [
     "thread-pool server (config.SERVERTYPE='thread'), no oneway calls; retries per proxy (_pyroMaxRetries 0, 1, 2), the remote "
     "code behaves the same on every attempt",
 ]
-TRUSTED = ["props/c07_rig.py: the in-process Daemon/Proxy rig and the canonical text forms of values and exceptions",
+TRUSTED = ["props/c07_tr.py: python ast -> Lean text for make_exception / class_to_dict (exception instance) / _ExceptionWrapper "
+           "(sound by refusal; primitive operations in PyroModel/ExcSrc.lean)",
+           "props/c07_rig.py: the in-process Daemon/Proxy rig and the canonical text forms of values and exceptions",
            "props/c07_probe.py: extraction-time behaviour probes of the real handleRequest / _pyroInvoke / BatchProxy / retry loop / "
            "class_to_dict / dict_to_class over in-memory sockets (their tables are what the C07_gen_ obligations compare the model with)",
            "_pyroTraceback is compared only as 'a non-empty list of str' (traceback formatting is not modelled)"]
@@ -62,7 +70,15 @@ KIND_NAME = {"p": "plain", "c": "callback", "g": "getattr", "s": "setattr", "i":
 
 
 def extract():
-    return X.extract()
+    text = X.extract()
+    # the functions that decide the wire form of an exception, transcribed from the current source (c07_tr.py);
+    # an unrecognised construct raises Untranslatable = a broken tie
+    import importlib
+    from props import c07_tr
+    common.repo_on_path()
+    src = c07_tr.lean_source(X.exception_classes(), importlib.import_module("Pyro5.serializers"), importlib.import_module("Pyro5.core"))
+    common.write_if_changed(os.path.join(common.LEAN, "PyroModel", "Gen", "C07Src.lean"), src)
+    return text
 
 
 # ----------------------------------------------------------------------------------------------
@@ -386,6 +402,7 @@ def run_call(rig, cmap, c):
     p = rig.proxy(ser)
     retries = int(c.get("retries", 0)) if kind in ("p", "c") else 0
     p._pyroMaxRetries = retries       # only method calls go through the retry loop (_RemoteMethod.__call__)
+    o.waited = rig.timeout
     o.yielded = []
     o.caught = None
     o.value = None
@@ -427,6 +444,8 @@ def run_call(rig, cmap, c):
             for item in b():
                 o.yielded.append(item)
             o.value = ("end",)
+    except (common.DeadlinePassed, common.GiveUp):
+        raise           # the runner's own watchdog: never an observation of the call
     except BaseException as x:      # noqa: B902 — the property is about every class, KeyboardInterrupt included
         o.caught = x
     o.released = p._pyroConnection is None
@@ -434,12 +453,23 @@ def run_call(rig, cmap, c):
     p._pyroMaxRetries = 0             # the probe of the connection's state is a single attempt
     try:
         o.next = "ok" if p.ok(4711) == 4711 else "wrong-result"
+    except (common.DeadlinePassed, common.GiveUp):
+        raise
     except BaseException as x:      # noqa: B902
         o.next = "fail:" + type(x).__name__
+    if no_reply(o.caught, cls) or o.next == "fail:TimeoutError":
+        # a wait that ended by the client-side watchdog: every further one costs a full wait, so wait less from now on
+        rig.note_no_reply()
     if not flags(cls)["exc"]:
         for _ in range(max(1, o.tries)):
             rig.note_worker_killed()
     return o
+
+
+def no_reply(x, cls):
+    """the caller's watchdog (the proxy's socket timeout) fired: the server neither answered nor closed the connection"""
+    from Pyro5 import errors
+    return isinstance(x, errors.TimeoutError) and "_pyroTraceback" not in vars(x) and not issubclass(cls, errors.TimeoutError)
 
 
 def dump_error(ser, e):
@@ -553,8 +583,15 @@ def check_property(ctx, c, o, derr):
         ctx.fail("no-exception:" + KIND_NAME[kind], "the remote code raised %s but the caller's call returned %r (%s)"
                  % (name, o.value, describe(c)), c)
         return
-    if isinstance(x, errors.TimeoutError) and not hasattr(x, "_pyroTraceback") and not issubclass(o.cls, errors.TimeoutError):
-        ctx.fail("hang:" + KIND_NAME[kind], "no reply within the proxy timeout (%s)" % describe(c), c)
+    if no_reply(x, o.cls):
+        # "never a hang": the remote code raised, the server neither replied nor closed the connection; only the
+        # watchdog of this rig (the proxy's socket timeout; Pyro's default is to wait for ever) ended the call
+        ctx.fail("no-reply:" + qual(o.cls), "the remote code raised %s but the caller got no reply at all and the connection stayed "
+                 "open: the call hangs (ended by the rig's watchdog after %.0f s; COMMTIMEOUT defaults to none) (%s)"
+                 % (name, o.waited, describe(c)), c)
+        ctx.no_reply = getattr(ctx, "no_reply", 0) + 1
+        if ctx.no_reply >= 3:
+            raise common.GiveUp("the caller got no reply on %d histories" % ctx.no_reply)
         return
     if ser == "marshal" and kind in ("g", "s", "b") and isinstance(x, AttributeError) and "NoneType" in str(x) \
             and not hasattr(x, "_pyroTraceback") and o.cls is not AttributeError:
@@ -758,8 +795,14 @@ def _run(ctx, name, n_extra, n_decode, do_model):
     common.repo_on_path()
     rng = ctx.sub_rng(name)
     cmap = class_map()
-    facts = X.facts()      # probed on the real code (c07_probe.py)
-    batch_fallback = facts["batchFallback"]
+    try:
+        facts = X.facts()      # probed on the real code (c07_probe.py)
+        batch_fallback = facts["batchFallback"]
+    except Exception as x:      # a tree on which a probe itself trips: the search for a failing input must still run
+        if do_model:
+            raise
+        ctx.count("source:probe-crashed:" + type(x).__name__)
+        batch_fallback = True
     ctx.count("source:batchFallback=%s" % batch_fallback)
     corpus = corpus_cases()
     calls = [c for c in corpus if c.get("mode") == "call"] + gen_cases(ctx, rng, n_extra)
